@@ -1,4 +1,4 @@
-(** C05 -- property theorems, FILE level, AUTOUGH2 (listings without short output).  Each is closed by [exact] of a lemma
+(** C05 -- property theorems, FILE level, AUTOUGH2 (with or without short output).  Each is closed by [exact] of a lemma
     proved in TableAUT.v / FileAUT.v / CheckAUT.v / Witness3.v and followed by Print Assumptions.  The statements are about
     the executable model coq/C05/Reader.v, which is run against the real t2listing on every shipped listing on every run. *)
 From Coq Require Import Ascii String List Bool Arith ZArith NArith.
@@ -37,6 +37,12 @@ Theorem autough2_setup_pos_finds_every_result_set : forall sets fuel z, Forall a
   setup_pos_AUT fuel [kwE] (z ++ afile sets) = Ok (apositions sets).
 Proof. exact setup_pos_AUT_spec. Qed.
 Print Assumptions autough2_setup_pos_finds_every_result_set.
+
+(** ... and with short output: the stretches between the full result sets may hold xSHORT blocks, which are passed over *)
+Theorem autough2_setup_pos_passes_short_output : forall ks' sets z N f, Forall aset_ok2 sets -> gaps_okA (kwE :: ks') z sets = Some N -> length sets < f ->
+  setup_pos_AUT (N + f) (kwE :: ks') (z ++ afile sets) = Ok (apositions sets).
+Proof. exact setup_pos_AUT_gen. Qed.
+Print Assumptions autough2_setup_pos_passes_short_output.
 
 Theorem autough2_listing_opens : forall x0 more Ts, afile_ok x0 more Ts -> forall skip,
   open_listing AUT skip (afile (x0 :: more)) = Ok (astate_at x0 more Ts skip 0 x0).
